@@ -169,7 +169,8 @@ theorem cex_linear_cost : ¬ LinearCost mToday := by
 
 theorem tie_raises_extracted :
     Gen.raiseSites.isSome = true ∧ Gen.escapingSites.isSome = true ∧
-    Gen.escapingClasses.isSome = true ∧ Gen.excAncestors.isSome = true := by decide
+    Gen.escapingClasses.isSome = true ∧ Gen.excAncestors.isSome = true ∧
+    Gen.partialSites.isSome = true := by decide
 
 /-- SPEC: the documented failure classes: `ValueError` and its subclasses (hierarchy as generated
     from the source), and `NixSyntaxError` (which the property lists, see below). -/
@@ -220,6 +221,40 @@ theorem nixSyntaxError_is_not_a_ValueError :
     ((Gen.excAncestors.getD []).lookup "NixSyntaxError").map (fun a => a.contains "ValueError") = some false ∧
     ((Gen.excAncestors.getD []).lookup "NixSyntaxError").map (fun a => a.contains "SyntaxError") = some true := by
   decide
+
+/-! ### Partial operations without a guard
+
+`Gen.partialSites`: every `xs[<constant>]` and one-argument `next(it)` in a function reachable from
+parse / from_cst / rebuild that is not dominated by a test of the same sequence (see
+`gen_raises.partial_sites`). These are where an IndexError / StopIteration could come from without any
+`raise` statement. The unchanged tree has eleven; each is total for the reason given. A new unguarded
+`value[0]` breaks the theorem even when no generated input reaches it. Other implicit failures
+(attribute access on `None`, wrong argument types) are not inventoried: oracle only. -/
+
+def excusedPartial : List (String × String × String) := [
+  -- `lines = inner.split("\n")`: str.split never returns an empty list; `normalized = [lines[0]]`
+  ("index", "expressions/comment.py:Comment.from_cst", "lines[0]"),
+  ("index", "expressions/comment.py:Comment.from_cst", "normalized[0]"),
+  ("index", "expressions/comment.py:MultilineComment.rebuild", "lines[0]"),
+  -- a `?` inside `formal` follows the formal's identifier (grammar); a MISSING identifier makes
+  -- has_error true, so the tree never reaches from_cst
+  ("index", "expressions/function/definition.py:_parse_argument_set", "argument_set[-1]"),
+  -- guarded through `children_types` (same length): `len(children_types) < 2` / `< 3` raise ValueError first
+  ("index", "expressions/function/definition.py:_parse_named_argument_set", "signature_nodes[0]"),
+  ("index", "expressions/function/definition.py:_parse_named_argument_set", "signature_nodes[2]"),
+  -- under `if inline_to_prev:` and inline_to_prev = (… and names)
+  ("index", "expressions/inherit.py:Inherit.from_cst", "names[-1]"),
+  -- render_names is only called under `if self.names:`
+  ("index", "expressions/inherit.py:Inherit.rebuild>render_names", "self.names[0]"),
+  -- under `if local_variables:`; the bindings were parsed from binding_set.children
+  ("index", "expressions/let.py:LetExpression.from_cst", "binding_set.children[-1]"),
+  ("index", "expressions/let.py:LetExpression.from_cst", "binding_set.children[0]"),
+  -- API property, reached only because `slot.expr` is resolved by name; parse/rebuild never read it
+  ("index", "expressions/source_code.py:NixSourceCode.expr", "self.expressions[0]")
+]
+
+theorem partial_sites_excused :
+    (Gen.partialSites.getD []).all (fun s => excusedPartial.contains s) = true := by decide
 
 /-! ## Non-vacuity -/
 
